@@ -593,3 +593,113 @@ func deepMay(pred func(ssa.Instruction) bool, depth int) func(ssa.Instruction) b
 	}
 	return func(ins ssa.Instruction) bool { return lifted(ins, depth) }
 }
+
+
+// nilTest is one If of a function that decides whether X is nil: on edge NonNilIdx X is known to be non-nil. The test is
+// direct (`x == nil`, `x != nil`) or goes through a bool function of the same package that receives x and whose answer
+// fixes the nil case: `isFirst(req, x)` answering true whenever x is nil makes the false edge a non-nil edge.
+type nilTest struct {
+	If        *ssa.If
+	X         ssa.Value
+	NonNilIdx int
+}
+
+func nilTests(fn *ssa.Function) []nilTest {
+	var out []nilTest
+	for _, i := range allIfs(fn) {
+		if x, eq, ok := nilCmp(i.Cond); ok {
+			idx := 0
+			if eq {
+				idx = 1
+			}
+			out = append(out, nilTest{i, x, idx})
+			continue
+		}
+		v, neg := stripNot(i.Cond)
+		hc, ok := v.(*ssa.Call)
+		if !ok {
+			continue
+		}
+		h := hc.Call.StaticCallee()
+		if h == nil || len(h.Blocks) == 0 || funcPkgPath(h) != funcPkgPath(fn) || hc.Call.IsInvoke() {
+			continue
+		}
+		for k, a := range hc.Call.Args {
+			if k >= len(h.Params) {
+				break
+			}
+			if _, isPtr := a.Type().Underlying().(*types.Pointer); !isPtr {
+				continue
+			}
+			for _, want := range []bool{true, false} {
+				if !answersWhenNil(h, h.Params[k], want) {
+					continue
+				}
+				// the helper answers `want` whenever the argument is nil: the other answer implies non-nil
+				idx := 0
+				if want {
+					idx = 1
+				}
+				if neg {
+					idx = 1 - idx
+				}
+				out = append(out, nilTest{i, a, idx})
+				break
+			}
+		}
+	}
+	return out
+}
+
+// answersWhenNil: the bool function h returns `want` on every path on which its parameter prm is nil.
+func answersWhenNil(h *ssa.Function, prm *ssa.Parameter, want bool) bool {
+	var nonNil []Edge
+	for _, i := range allIfs(h) {
+		if x, eq, ok := nilCmp(i.Cond); ok && x == prm {
+			idx := 0
+			if eq {
+				idx = 1
+			}
+			nonNil = append(nonNil, Edge{i.Block(), idx})
+		}
+	}
+	var check func(v ssa.Value, b *ssa.BasicBlock, depth int) bool
+	check = func(v ssa.Value, b *ssa.BasicBlock, depth int) bool {
+		if depth > 6 {
+			return false
+		}
+		if k, isC := constBool(v); isC && k == want {
+			return true
+		}
+		if x, eq, ok := nilCmp(v); ok && x == prm && eq == want {
+			return true
+		}
+		if underEdges(h, b, nonNil) {
+			return true
+		}
+		if phi, ok := v.(*ssa.Phi); ok {
+			for j, e := range phi.Edges {
+				if !check(e, phi.Block().Preds[j], depth+1) {
+					return false
+				}
+			}
+			return true
+		}
+		return false
+	}
+	n := 0
+	for _, b := range h.Blocks {
+		r, ok := b.Instrs[len(b.Instrs)-1].(*ssa.Return)
+		if !ok {
+			continue
+		}
+		if len(r.Results) != 1 {
+			return false
+		}
+		n++
+		if !check(retVal(r, 0), b, 0) {
+			return false
+		}
+	}
+	return n > 0
+}
